@@ -1,9 +1,12 @@
 package props
 
 import (
+	"bytes"
 	"fmt"
+	"github.com/robfig/soy/soyhtml"
 	"math"
 	"strconv"
+	"sync"
 	"testing"
 	"time"
 
@@ -87,6 +90,18 @@ func (l Level) MarshalValue() data.Value {
 	}
 	return data.Null{}
 }
+
+// Bag is a marshaler of slice kind whose Soy form is a map.
+type Bag []string
+
+func (b Bag) MarshalValue() data.Value {
+	first := ""
+	if len(b) > 0 {
+		first = b[0]
+	}
+	return data.Map{"size": data.Int(len(b)), "first": data.String(first)}
+}
+
 func (l Label) MarshalValue() data.Value {
 	return data.List{data.String("label"), data.String(string(l))}
 }
@@ -301,6 +316,17 @@ func build(r Recipe, c *C20Case) (interface{}, ref.Value) {
 			return &x, e
 		}
 		return &v, e // *interface{}
+	case "bag", "ptr_bag":
+		bag := Bag(r.Keys)
+		first := ""
+		if len(bag) > 0 {
+			first = bag[0]
+		}
+		exp := ref.M(map[string]ref.Value{"size": ref.I(int64(len(bag))), "first": ref.S(first)})
+		if r.T == "ptr_bag" {
+			return &bag, exp
+		}
+		return bag, exp
 	case "nilptr_struct":
 		return (*S1)(nil), ref.N()
 	case "nilptr_int":
@@ -424,7 +450,7 @@ var (
 	c20Ints   = []int64{0, 1, -1, 2, 7, -128, 127, 255, 256, 65535, 1 << 31, -(1 << 31), 1<<53 - 1, 1 << 53, 1<<53 + 1, math.MaxInt64, math.MinInt64}
 	c20Floats = []string{"0", "-0", "0.5", "-1.5", "1", "2", "1e21", "1e-7", "3.25", "NaN", "+Inf", "-Inf", "9007199254740992", "9007199254740993", "1.7976931348623157e308", "5e-324", "255", "0.1"}
 	c20Strs   = []string{"", "a", "0", "false", "null", "é", "<b>", "日本", "a b", "x\x00y", "\xff"}
-	c20Leaf   = []string{"nil", "bool", "mybool", "int", "int8", "int16", "int32", "int64", "myint", "uint", "uint8", "uint16", "uint32", "uint64",
+	c20Leaf   = []string{"bag", "ptr_bag", "nil", "bool", "mybool", "int", "int8", "int16", "int32", "int64", "myint", "uint", "uint8", "uint16", "uint32", "uint64",
 		"float64", "float32", "myfloat", "string", "mystr", "time", "slice_nil", "map_nil", "nilptr_struct", "nilptr_int", "nilptr_ptr", "nilptr_marsh",
 		"s1", "s3", "marsh", "ptr_marsh", "slice_int", "slice_str", "map_int", "level", "label", "slice_level", "slice_label", "slice_marsh", "map_level", "struct_level"}
 	c20Node = []string{"slice_any", "map_any", "map_named", "ptr", "s2", "value", "slice_ptr"}
@@ -462,6 +488,8 @@ func genRecipe(t *rapid.T, depth int) Recipe {
 	}
 	genLeafFields(t, &r)
 	switch r.T {
+	case "bag", "ptr_bag":
+		r.Keys = rapid.SliceOfN(rapid.SampledFrom(c20Strs), 0, 3).Draw(t, "bag")
 	case "time":
 		r.I = rapid.Int64Range(-62135596800, 253402300799).Draw(t, "sec")
 		r.U = uint64(rapid.IntRange(0, 999999999).Draw(t, "nsec"))
@@ -534,6 +562,23 @@ func genC20(t *rapid.T) C20Case {
 	}
 }
 
+var (
+	c20TofuOnce sync.Once
+	c20TofuVal  *soyhtml.Tofu
+)
+
+// c20Tofu is a compiled bundle with one template without params.
+func c20Tofu() *soyhtml.Tofu {
+	c20TofuOnce.Do(func() {
+		cb, err, pn := compileBundle([]string{"c20.soy"}, []string{"{namespace c20}\n/** */\n{template .t}ok{/template}\n"}, nil)
+		if err != nil || pn != nil {
+			panic(fmt.Sprint("harness: ", err, pn))
+		}
+		c20TofuVal = cb.tofu
+	})
+	return c20TofuVal
+}
+
 func convert(opts data.StructOptions, v interface{}) (out data.Value, err error) {
 	if p := catch(func() { out = data.NewWith(opts, v) }); p != nil {
 		return nil, fmt.Errorf("conversion panicked: %v", p)
@@ -578,6 +623,20 @@ func checkC20(c C20Case) Verdict {
 		got3, _ := fromData(v3)
 		if !ref.DeepEqual(got3, exp) {
 			return bad(true, "%s: repeated conversion gave %#v, want %#v", r.T, got3, exp)
+		}
+		// Tofu.Render converts its argument the same way: it takes exactly the values that convert to a map
+		if exp.K != ref.Null {
+			var buf bytes.Buffer
+			var rerr error
+			if pn := catch(func() { rerr = c20Tofu().Render(&buf, "c20.t", goval) }); pn != nil {
+				return bad(true, "%s: Tofu.Render panicked on a value that converts to %s: %v", r.T, exp.K, pn)
+			}
+			if exp.K == ref.Map && (rerr != nil || buf.String() != "ok") {
+				return bad(true, "%s: Tofu.Render rejects a value that converts to a map (%#v): wrote %q, error %v", r.T, exp, buf.String(), rerr)
+			}
+			if exp.K != ref.Map && rerr == nil {
+				return bad(true, "%s: Tofu.Render accepted a value that converts to %s, not to a map", r.T, exp.K)
+			}
 		}
 		// truthiness table
 		if v.Truthy() != exp.Truthy() {
